@@ -89,15 +89,21 @@ pub enum Start {
 
 #[derive(Clone, Debug, Serialize, PartialEq)]
 pub struct Inject {
-    /// victim node index and the peer address the forged packets claim to come from
+    /// victim node index and the address the forged packets claim to come from
     pub victim: usize,
-    pub from_node: usize,
-    /// probability per victim tick (after `after_ms`)
+    pub from_addr: u16,
+    /// probability per victim tick inside [after_ms, until_ms)
     pub p: f64,
     pub after_ms: u64,
     pub until_ms: u64,
-    /// class of malformation, see props/c08.rs
+    /// class of malformation, see props/c08.rs (9 = mixed)
     pub class: u8,
+    /// Some(k): payload class enumerates all byte strings of length <= 2 starting at index k
+    pub exhaustive_from: Option<u64>,
+    /// forge Input packets from scratch when no genuine one has been delivered yet (handshake state)
+    pub synthesize: bool,
+    /// also inject exact replays of genuine packets (only legitimate after the sender was dropped)
+    pub replay_genuine: bool,
 }
 
 #[derive(Clone, Debug, Serialize, PartialEq)]
